@@ -987,6 +987,25 @@ def gen_plan(rng, check="C10", size=1, max_steps=60, known_avoid=()):
                     steps.append(st)
             if steps:
                 sessions.append(steps)
+    # spelling twins: two unrelated coordinate systems (other ids) whose type one caller spells SequenceType.CHROMOSOME and the
+    # other "chromosome" (equal and equal-hashing, another type): what each is told about its type must not depend on who
+    # came first
+    if theme in ("lowlevel", "mixed") and rng.random() < 0.2:
+        pair = []
+        for i_, raw in enumerate(rng.sample([False, True], 2)):
+            h_ = {"levels": [{"id": f"sp{len(pb.objects)}_{i_}", "sequence_type": rng.choice(["chromosome", "sequence_chunk"]) if i_ == 0 else None,
+                              "sequence_type_raw": raw, "sequence": None, "location": None, "parent": None}], "leaf_len": 50}
+            if i_ == 1:
+                h_["levels"][0]["sequence_type"] = pair[0][1]["levels"][0]["sequence_type"]
+            pair.append((pb.add_root("parent", h_), h_))
+        steps = []
+        for n, _ in pair:
+            for x in rng.sample(["sequence_type", "first_ancestor_of_type(self)", "has_ancestor_of_type(self)", "__repr__", "strip_location_info"], 3):
+                st = pb.call_step(len(sessions), n, BY_NAME["parent"][x], store_p=0.0)
+                if st:
+                    steps.append(st)
+        if steps:
+            sessions.append(steps)
     # order twins are asked the order-sensitive questions one after the other (either one first)
     for pair in pb.order_twins:
         pair = list(pair)
